@@ -25,6 +25,11 @@ def _od():
                                                   C.mkvar("Member", 0x2201, 1, 0x03),
                                                   C.mkvar("Other", 0x2201, 2, 0x07)]))
     od.add_object(C.mkvar("Other", 0x2202, 0, 0x07))
+    # a top-level entry whose own name contains a full stop and begins like a record's name
+    od.add_object(C.mkvar("Record B.Extra", 0x2203, 0, C.U16))
+    # text / byte-string entries that come with a default of their own
+    od.add_object(C.mkvar("Device label", 0x2105, 0, VIS, "rw", default="FACTORY NAME"))
+    od.add_object(C.mkvar("Key", 0x2106, 0, OCT, "rw", default=b"\x01\x02\x03"))
     od.add_object(C.mkarray("Array", 0x2300, [C.mkvar("n", 0x2300, 0, C.U8, "ro", default=2),
                                               C.mkvar("Elem", 0x2300, 1, 0x04)]))
     return od
@@ -307,7 +312,31 @@ def same_names(discipline):
         sx.prove(sx.eq_bytes(st, sx.mkbytes([sx.byte_of(exp, i) for i in range(n)])), "stored bytes of %r" % key,
                  tag + "stored")
     sx.prove(sdo[0x2201][1].raw == vb, "by index and sub-index", tag + "by-index")
+    ex = sx.fresh_int("ex", 0, 0xFFFF)
+    try:
+        sdo["Record B.Extra"].raw = ex
+        sx.prove((sdo["Record B.Extra"].raw == ex) & (w.local.sdo[0x2203].raw == ex), "entry whose name contains a full stop",
+                 tag + "dotted-name")
+    except Exception as e:
+        sx.observe("exc", C.exc_name(e))
+        sx.fail("an entry whose own name contains a full stop cannot be reached by that name", tag + "dotted-name")
     sx.reach("same-names")
+
+
+def empty_over_default(discipline):
+    """the empty value is a value: written to a text / byte-string entry that has a default of its own, it reads back
+    empty from both sides (the default does not come back)"""
+    w = World(discipline)
+    for key, idx, empty in (("Device label", 0x2105, ""), ("Key", 0x2106, b"")):
+        tag = "C03/empty-over-default/%s" % key.replace(" ", "-")
+        w.remote.sdo[key].raw = empty
+        st = w.local.data_store[idx][0]
+        sx.prove(len(sx.items(st)) == 0, "stored bytes are empty", tag + "/stored")
+        got_r = w.remote.sdo[key].raw
+        got_l = w.local.sdo[key].raw
+        sx.prove(len(got_r) == 0, "remote read-back of the empty value", tag + "/remote")
+        sx.prove(len(got_l) == 0, "local read-back of the empty value", tag + "/local")
+    sx.reach("empty-over-default")
 
 
 def stale_responses(k):
@@ -523,6 +552,7 @@ def jobs(tier):
         out.append(dict(func="boolean", params=dict(discipline=d)))
         out.append(dict(func="record_member", params=dict(discipline=d)))
         out.append(dict(func="same_names", params=dict(discipline=d)))
+        out.append(dict(func="empty_over_default", params=dict(discipline=d)))
         out.append(dict(func="two_nodes", params=dict(discipline=d)))
     for k in (2, 3):
         out.append(dict(func="concurrent_send", params=dict(k=k), weight=3 ** k))
@@ -583,7 +613,7 @@ META = dict(
                     "NUL", "non-BMP text"],
     assumptions=["at most 2 noise injections per scenario; noise ids outside every predefined connection set"],
     stubs=["queue with delivery hook", "struct", "bytes", "io model", "logging", "Network.send_message replaced by the loopback"],
-    required_reach=["threads", "same-names", "concurrent-send", "after-failed", "shared-od", "slow", "empty-after-other", "numeric-inline", "numeric-deferred", "numeric-interleaved", "access-index", "access-name", "boolean",
+    required_reach=["threads", "empty-over-default", "same-names", "concurrent-send", "after-failed", "shared-od", "slow", "empty-after-other", "numeric-inline", "numeric-deferred", "numeric-interleaved", "access-index", "access-name", "boolean",
                     "real", "text", "blob", "domain-segmented", "record", "two-nodes", "stale-responses"],
     limits=dict(quick=dict(max_decisions=50000), thorough=dict(max_decisions=100000)),
     validate_every=dict(quick=7, thorough=50),
